@@ -158,3 +158,8 @@ MUTANTS = [
     dict(name="server_uses_client_behavior", file="conjure-serde/src/json/de/server.rs", **{"from": "        UnknownFieldsBehavior<ValueBehavior>\n    );", "to": "        ValueBehavior\n    );"},
          expect=["C05.S.entry_wiring"]),
 ]
+
+BENIGN = [
+    dict(name="ignored_any_key_lookup_rewritten", file=UFB, **{"from": "        let key = match self.key {\n            Some(key) => &**key,\n            None => \"<unknown>\",\n        };", "to": "        let key = self.key.as_deref().unwrap_or(\"<unknown>\");"}),
+    dict(name="key_visitor_owned_without_to_string", file=UFB, **{"from": "        *self.key = Some(Cow::Owned(value.to_string()));\n        visitor.visit_string(value)", "to": "        *self.key = Some(Cow::Owned(value.clone()));\n        visitor.visit_string(value)"}),
+]
